@@ -181,6 +181,17 @@ def c14_histories(tier, seed):
                         else: got = b"".join(p["sink"].got)
                         if p.get("truncated"): known_seen += 1
                         if got != p["expect"]: bad.append({"history": trace, "writer": p["kind"], "expected": p["expect"].decode(), "got": got.decode(errors="replace")})
+                    if op == "teardown":
+                        # teardown disconnects EVERY registered output and leaves none registered
+                        for p in was_registered:
+                            if p["kind"] == "custom" and p["w"].connected:
+                                bad.append({"history": trace, "writer": p["kind"], "expected": "disconnected by teardown()", "got": "still connected"})
+                    # an output that is not registered receives nothing: what it holds is a prefix of what was delivered to it while it was registered
+                    for p in pool:
+                        if p in registered or p["kind"] == "path": continue
+                        got = p["sink"].getvalue().encode("utf-8") if p["kind"] == "text" else p["sink"].getvalue() if p["kind"] == "binary" else b"".join(p["sink"].got)
+                        if not p["expect"].startswith(got):
+                            bad.append({"history": trace, "writer": p["kind"], "expected": "nothing beyond " + p["expect"].decode(), "got": got.decode(errors="replace")})
                 if bad: break
             g.teardown()
             if bad: break
